@@ -129,6 +129,8 @@ class RenderNode(Node):
             # "with". This distinction is not made when using the 'include' tag.
             if self.loop and isinstance(val, (tuple, list, IterableDrop)):
                 ctx.raise_for_loop_limit(len(val))
+                # Loops in the partial count these iterations too.
+                ctx.loop_iteration_carry *= len(val)
                 forloop = ForLoop(
                     name=key,
                     it=iter(val),
@@ -209,6 +211,8 @@ class RenderNode(Node):
             # "with". This distinction is not made when using the 'include' tag.
             if self.loop and isinstance(val, (tuple, list, IterableDrop)):
                 ctx.raise_for_loop_limit(len(val))
+                # Loops in the partial count these iterations too.
+                ctx.loop_iteration_carry *= len(val)
                 forloop = ForLoop(
                     name=key,
                     it=iter(val),
